@@ -120,6 +120,11 @@ def equiv(op, il, mres):
     if il == mres:
         return True
     f = _fields(op)
+    if f[1] == "table" and il.startswith("ok ") and mres.startswith("ok "):
+        # the registration order is the order of Go package initialisation in THIS binary (it follows the import graph,
+        # not relic's source text, and differs between the harness and the relic binary): compared as a set; that no
+        # dispatch function depends on the order is Relic.Props.C01.dispatch_order_independent
+        return sorted(il[3:].split(";")) == sorted(mres[3:].split(";"))
     if f[1] == "decomp" and mres.startswith("codec"):
         ref = mres.split(" ", 2)[2]
         if ref == "short":
